@@ -398,6 +398,30 @@ TABLE = [
  ("C17-cms-redis-equals-and-guard", "C17", "/tmp/wt7-C17", 2, ["C17"],
   "CountMinSketchRedis.Equals rejects only when rows AND columns differ.",
   "sketches differing in exactly one dimension: 2x8 equals 3x8 (one direction only)"),
+ ("C05-register-bits-via-log10", "C05", "/tmp/wt8-C05", 1, ["C05", "C06"],
+  "The constructor computes the number of index bits as uint64(math.Log10(m)/math.Log10(2)): one too small for m = 2048, 8192, 2^21, 2^22, 2^26.",
+  "a sketch with exactly 2048 or 8192 registers (both backends); every other accepted size is unchanged"),
+ ("C05-mem-count-cache-survives-reset", "C05", "/tmp/wt8-C05", 2, ["C06", "C05"],
+  "Count caches the harmonic sum; Update invalidates it, Reset / Merge / Import / ReadFrom do not.",
+  "Update..., Count, then Reset (or Merge, Import, ReadFrom), then Count again"),
+ ("C11-cms-writeto-streams-after-unlock", "C11", "/tmp/wt8-C11", 1, ["C07", "C11"],
+  "CountMinSketch.WriteTo copies allSum and the matrix header under the lock and unlocks before streaming the live rows.",
+  "an Update that lands while the rows are being written: the image has the old allSum and newer counters"),
+ ("C11-cuckoo-readfrom-keeps-own-retries", "C11", "/tmp/wt8-C11", 2, ["C11"],
+  "CuckooFilter.ReadFrom reads the retries field from the stream but does not assign it.",
+  "a filter built with a retry budget other than the receiver's (non-default retries), read into a default receiver"),
+ ("C13-redis-add-treats-position-0-as-none", "C13", "/tmp/wt8-C13", 1, ["C13"],
+  "The Redis add script treats a free slot at list position 0 as 'no free slot' and pushes at the head.",
+  "fill both buckets, remove the entry at the head of a list, insert again: the bucket holds an empty slot its counter calls full, a later eviction fills it"),
+ ("C13-mem-remove-under-rlock", "C13", "/tmp/wt8-C13", 2, ["C07", "C13"],
+  "CuckooFilter.Remove takes RLock instead of Lock.",
+  "two goroutines removing disjoint elements at the same time: decrements of Length are lost"),
+ ("C18-cms-import-decoder-accepts-empty", "C18", "/tmp/wt8-C18", 1, ["C18"],
+  "CountMinSketch.Import decodes with json.NewDecoder and ignores io.EOF.",
+  "the empty prefix (cut after byte 0) of an exported document: Import returns nil and installs a 0x0 sketch"),
+ ("C18-hll-readfrom-clamps-register-count", "C18", "/tmp/wt8-C18", 2, ["C18"],
+  "HyperLogLog.ReadFrom clamps the header's register count to 65536 instead of rejecting larger ones.",
+  "a sketch with more than 65536 registers: every cut from byte 24+65536 on is loaded without error"),
 ]
 
 
